@@ -3,6 +3,7 @@
 mod ast;
 mod frags;
 mod lift;
+mod ext;
 mod sat;
 mod desc;
 mod psbt;
@@ -32,6 +33,7 @@ fn main() {
         "lift" => lift::run(&args[2..]),
         "validate" => validate::run(&args[2..]),
         "text" => text::run(&args[2..]),
+        "ext" => ext::run(&args[2..]),
         other => {
             eprintln!("unknown engine {}", other);
             std::process::exit(2);
